@@ -124,6 +124,8 @@ def oracle(case, rec=None):
             rec.cls("no-npu-op")
     outs_seen = []
     decided = 0
+    approx_ops = [o["code"] for o in spec["ops"] if o["code"] in APPROX_CODES]
+    last_code = approx_ops[-1] if approx_ops else spec["ops"][-1]["code"]
     for k, xs in enumerate(make_inputs(src, case.get("input_seed", 0))):
         try:
             refs = reference(src, xs)
@@ -139,7 +141,7 @@ def oracle(case, rec=None):
                 got = r.run(xs)
             except (tflinterp.Unsupported, npusim.Unmodelled) as e:
                 if rec is not None:
-                    rec.cls("inconclusive", "inconclusive: output model: %s" % str(e)[:60])
+                    rec.cls("inconclusive", "inconclusive: output model: %s" % str(e)[:60], "inconclusive-with-" + last_code)
                 return
             except npusim.SimError as e:
                 raise Violation("C01/unexecutable", "the command stream cannot be executed over the memory the file publishes: %s" % e, case, tags)
@@ -163,7 +165,7 @@ def oracle(case, rec=None):
                                 k, cfg["accel"], tol, where[1], [o["code"] for o in spec["ops"]]), case, tags)
         outs_seen.append(jhash([np.asarray(g).tolist() for g in got]))
     if rec is not None and decided:
-        rec.cls("decided")
+        rec.cls("decided", "decided-with-" + last_code)
         feats = e2e.schedule_features(art)
         for ft in feats:
             rec.cls("feature-" + ft)
